@@ -52,9 +52,23 @@ func load(repo string, dirs []string, stubDir string) (*World, error) {
 	}
 	env = append(env, "GOFLAGS=", "GOPROXY=off", "GOSUMDB=off", "GOTOOLCHAIN=local")
 	var all []*packages.Package
-	for _, d := range dirs {
-		cfg := &packages.Config{Mode: packages.LoadAllSyntax, Dir: filepath.Join(repo, d), Env: env, BuildFlags: []string{"-tags=verif"}}
-		pkgs, err := packages.Load(cfg, ".")
+	fset := token.NewFileSet()
+	// one load for all directories, so that a package imported by another is the same object as the one named directly
+	var patterns []string
+	base := repo
+	if len(dirs) > 0 && strings.HasPrefix(dirs[0], "go/") {
+		base = filepath.Join(repo, "go")
+		for _, d := range dirs {
+			patterns = append(patterns, "./"+strings.TrimPrefix(d, "go/"))
+		}
+	} else {
+		for _, d := range dirs {
+			patterns = append(patterns, "./"+d)
+		}
+	}
+	{
+		cfg := &packages.Config{Mode: packages.LoadAllSyntax, Dir: base, Env: env, BuildFlags: []string{"-tags=verif"}, Fset: fset}
+		pkgs, err := packages.Load(cfg, patterns...)
 		if err != nil {
 			return nil, err
 		}
@@ -66,7 +80,7 @@ func load(repo string, dirs []string, stubDir string) (*World, error) {
 			}
 		})
 		if nerr > 0 {
-			return nil, fmt.Errorf("%d errors loading %s", nerr, d)
+			return nil, fmt.Errorf("%d errors loading %v", nerr, dirs)
 		}
 		all = append(all, pkgs...)
 	}
